@@ -107,9 +107,17 @@ pub fn gen_c02(rng: &mut Rng, n: usize, out: &mut Vec<String>) {
                 (0..k).map(|_| *rng.pick(gen_prog::TOKEN_ALPHABET)).collect::<Vec<_>>().join(" ")
             }
             3 => {
-                // deep nesting
+                // deep nesting: parentheses and if-blocks, or one recursive construct repeated without its closing parts
+                // (every repetition is one more level of recursive descent for a single token)
                 let d = rng.range(1, 64);
-                format!("proc main(){{ x := {}1{}; {}{} }}", "(".repeat(d), ")".repeat(rng.below(d + 1)), "if(1=1){".repeat(d), "}".repeat(rng.below(d + 1)))
+                match rng.below(6) {
+                    0 => format!("type t = {}int;", "array ".repeat(d)),
+                    1 => format!("proc main(){{ x := {}1; }}", "- ".repeat(d)),
+                    2 => format!("proc main(){{ x := {}; }}", "a[".repeat(d)),
+                    3 => format!("proc main(){{ {} }}", "if (1) while (1) ".repeat(d)),
+                    4 => format!("proc main(){{ {} }} type u = {}", "{ ".repeat(d), "array [ 1 ] of ".repeat(d)),
+                    _ => format!("proc main(){{ x := {}1{}; {}{} }}", "(".repeat(d), ")".repeat(rng.below(d + 1)), "if(1=1){".repeat(d), "}".repeat(rng.below(d + 1))),
+                }
             }
             4 => gen_text::lexemes(rng, 20).replace('\n', "\r\n"),
             _ => ops_parse::gen_valid_text(rng, 10, true),
